@@ -43,7 +43,7 @@ Section Verify.
     if current_epoch <? lp_version p then None
     else if negb (verify_existence_with_val root label (lp_value p) (lp_epoch p) (lp_nonce p) true (lp_version p)
                                             (lp_existence_vrf p) (lp_existence p)) then None
-    else if lp_version p =? 0 then None (* get_marker_version_log2 panics on 0; unreachable: a verified leaf has version >= 1 only by convention, kept as rejection *)
+    else if lp_version p =? 0 then None (* rejected up front since fix 8bcbe22 (before: assertion failure in get_marker_version_log2) *)
     else if negb (verify_existence root label true (lookup_marker (lp_version p)) (lp_marker_vrf p) (lp_marker p)) then None
     else if negb (verify_nonexistence root label false (lp_version p) (lp_freshness_vrf p) (lp_freshness p)) then None
     else Some (VRes (lp_epoch p) (lp_version p) (lp_value p)).
